@@ -236,8 +236,12 @@ func registerChecks() {
 				cs = append(cs, base, injectVoids(base, cx.R.Fork(), 10+cx.R.Intn(30)))
 			}
 			// every variadic construct x arities 0..12 x one void at every position
+			arities := []int{0, 1, 2, 3, 4, 5, 6, 17, 65, 513}
+			if cx.Tier == "thorough" || cx.Escalate > 1 {
+				arities = []int{0, 1, 2, 3, 4, 5, 6, 7, 8, 9, 10, 11, 12, 15, 16, 17, 31, 32, 33, 63, 64, 65, 127, 128, 129, 255, 256, 257, 511, 512, 513, 1025}
+			}
 			for _, api := range grpVariadic {
-				for ar := 0; ar <= cx.N(6, 12); ar++ {
+				for _, ar := range arities {
 					var args []Arg
 					for k := 0; k < ar; k++ {
 						args = append(args, st(id(fmt.Sprintf("a%d", k))))
